@@ -575,6 +575,8 @@ fn shape_key(c: &Case) -> String {
 
 fn main() {
     let mut cx = Ctx::from_args("C06", Level::FaultEnumeration);
+    // thorough: honest runs of the foreign msm circuits alone take ~11 minutes
+    cx.thorough_budget(2700);
     cx.worker_rayon_threads = Some(1);
     let seed = cx.seed;
     let tier = cx.tier;
@@ -982,7 +984,7 @@ fn main() {
     tcases.sort_by_key(|(_, (c, _))| kof(c).unwrap());
     // ---- phase 2a': region-local alternative-witness search (vgad::laws; thorough tier): one case
     // per (curve, operation) with k <= 12 — limb range checks of the foreign chips, byte and
-    // window tables — last 32 regions of the circuit
+    // window tables — last 16 regions of the circuit
     if tier.is_thorough() {
         let mut seen: std::collections::HashSet<String> = Default::default();
         let lcases: Vec<(String, Case)> = fcases
@@ -990,11 +992,11 @@ fn main() {
             .filter(|(_, (c, _))| kof(c).unwrap() <= 12 && seen.insert(format!("{:?}/{}", c.cv, c.op())))
             .map(|(k, (c, _))| (format!("{}#laws", k.split('@').next().unwrap_or(k)), c.clone()))
             .collect();
-        let cfg = vgad::laws::Cfg { max_combinations: 100_000, max_real_runs: 4, ..Default::default() };
-        cx.next_group_share(360.0);
+        let cfg = vgad::laws::Cfg { max_combinations: 20_000, max_real_runs: 4, ..Default::default() };
+        cx.next_group_share(300.0);
         cx.run_cases("laws", &lcases, |c| {
             let mut out = CaseOut::batch();
-            vgad::laws::explore_all(c, kof(c).unwrap(), &cfg, 32, &mut out);
+            vgad::laws::explore_all(c, kof(c).unwrap(), &cfg, 16, &mut out);
             out
         });
     }
